@@ -53,10 +53,10 @@ func corpus(w *lib.Writer) {
 	// holes, growth across a gap, trailing nils, Len/MaxN, append into a trailing hole
 	add("corpus", defaultMai, "lua",
 		set("lua.index", I(1), I(1)), set("lua.index", I(2), I(2)), set("lua.index", I(5), I(5)), Step{Op: "len", How: "lua.#"},
-		set("lua.index", I(5), tv.Nil()), Step{Op: "len", How: "go.Len"}, Step{Op: "maxn", How: "lua.maxn"},
+		set("lua.index", I(5), tv.Nil()), Step{Op: "len", How: "go.Len"}, Step{Op: "maxn", How: "go.MaxN"},
 		Step{Op: "append", How: "go.Append", V: vp(I(9))}, set("lua.index", I(2), tv.Nil()), Step{Op: "len", How: "L.ObjLen"},
 		Step{Op: "ipairs"}, Step{Op: "insert", How: "go.Insert", I: 2, V: vp(I(7))}, Step{Op: "remove", How: "go.Remove", I: 1},
-		Step{Op: "remove", How: "lua.remove", I: 9}, Step{Op: "insert", How: "lua.insert", I: 0, V: vp(S("zero"))})
+		Step{Op: "remove", How: "go.Remove", I: 9}, Step{Op: "insert", How: "lua.insert", I: 0, V: vp(S("zero"))})
 	// traversal while clearing every visited field, then while overwriting
 	add("corpus", defaultMai, "NewTable",
 		set("go.RawSet", I(1), I(1)), set("go.RawSet", I(2), I(2)), set("go.RawSet", S("x"), I(3)), set("go.RawSet", tv.Obj(1), I(4)),
